@@ -128,6 +128,9 @@ def run_binop(ctx, p):
     sig = dict(api='%s.%s' % (c, op), lens='%s,%s' % ('1' if m == 1 else 'M', '1' if n == 1 else 'M'))
     try:
         L, R = mk(c, A), mk(c, B)
+        if p.get('sameobj'):
+            R = L          # both operands are one and the same Python object (x op x, an alias, two references out of a container)
+            sig['sameobj'] = True
     except Exception as e:
         ctx.harness_errors.append('mk %s failed %r' % (c, e))
         return
@@ -447,6 +450,9 @@ def run(ctx):
                                 else:
                                     A[int(rng.integers(m))] = B[0].copy()
                         drive(RUNNERS, ctx, 'binop', dict(cls=c, op=op, A=A, B=B))
+                    if m == n:
+                        A = elements(rng, c, m)
+                        drive(RUNNERS, ctx, 'binop', dict(cls=c, op=op, A=A, B=[a_.copy() for a_ in A], sameobj=True))
                     if i % 211 == 0:
                         ctx.sample(dict(case='binop', cls=c, op=op, m=m, n=n), limit=8)
         for m in range(1, 6):
